@@ -18,7 +18,9 @@ def run(ctx, replay=None):
         mc = [dict(shape="chain", max_env=2),
               dict(shape="chain", max_env=2, flagsets="ExpiryFlagSets", env="WideEnv"),          # + profile edits and expiry
               dict(shape="chain", max_env=2, flagsets="DefaultAndMissing", env="IssuerEnv"),     # + issuer edits
-              dict(shape="chain", max_env=2, flagsets="DefaultAndMissing", env="ConfigEnv")]     # + configurations deleted / put back
+              dict(shape="chain", max_env=2, flagsets="DefaultAndMissing", env="ConfigEnv"),     # + configurations deleted / put back
+              # histories of any length in the design model (every user action, every flag set, every fault): random behaviours
+              dict(shape="chain", max_env=0, flagsets="AllFlagSets", env="EverythingEnv", simulate="num=150,depth=80")]
         ex = [dict(shape="chain", max_env=2, flags="m,c,o", extra="a", faults=False),
               dict(shape="chain", max_env=1, flags="m,c,e", faults=False, env=WIDE),
               dict(shape="chain", max_env=2, flags="m,c", faults=False, env="EditProfile,Expire,Edit"),
@@ -30,7 +32,10 @@ def run(ctx, replay=None):
               dict(shape="chain", max_env=3, flagsets="ExpiryFlagSets", env="WideEnv"), dict(shape="star", max_env=2, flagsets="NoAllFlagSets", env="WideEnv"),
               dict(shape="chain", max_env=2, env="FullEnv", flagsets="NoAllFlagSets"), dict(shape="chain", max_env=3, env="IssuerEnv"),
               dict(shape="star", max_env=3, env="IssuerEnv"), dict(shape="two", max_env=3, env="IssuerEnv"),
-              dict(shape="chain", max_env=3, env="ConfigEnv"), dict(shape="star", max_env=3, env="ConfigEnv", alt="StarAlt")]
+              dict(shape="chain", max_env=3, env="ConfigEnv"), dict(shape="star", max_env=3, env="ConfigEnv", alt="StarAlt"),
+              dict(shape="chain", max_env=0, flagsets="AllFlagSets", env="EverythingEnv", simulate="num=4000,depth=100"),
+              dict(shape="star", max_env=0, flagsets="AllFlagSets", env="EverythingEnv", simulate="num=2000,depth=100"),
+              dict(shape="two", max_env=0, flagsets="AllFlagSets", env="EverythingEnv", simulate="num=2000,depth=100")]
         ex = [dict(shape="chain", max_env=3, flags="m,c,o", extra="a;c,e,m", faults=False),
               dict(shape="star", max_env=2, flags="m,c,o", extra="a", faults=False),
               dict(shape="two", max_env=2, flags="m,c,o", extra="a", faults=False),
